@@ -35,6 +35,7 @@ for name in sorted(os.listdir(f"{wt}/mutants")):
         c = subprocess.run(f"./check {prop} --tier quick", shell=True, cwd="/verif", capture_output=True, text=True)
     finally:
         subprocess.run("git -C /repo checkout -- .", shell=True)
+        subprocess.run("git -C /verif checkout -- evidence", shell=True)
     viol = [l for l in c.stdout.splitlines() if l.startswith("VIOLATION")]
     k = int(name.lstrip("m")) + offset
     dest = f"/verif/seeded/{prop}-m{k}"
